@@ -128,6 +128,15 @@ Theorem C01_coal_const_is_theta_over_i : forall (quad : (R -> R) -> R -> R -> R)
 Proof. exact coal_const_is_theta_over_i_lemma. Qed.
 Print Assumptions C01_coal_const_is_theta_over_i.
 
+(** the oracle for a mutation rate that changes from epoch to epoch (theta0 passed as a function of time): when every
+    epoch carries the same theta it IS the constant-theta oracle, for every history (any number of constant / exponential
+    epochs, any quadrature slot), every sample size and entry *)
+Theorem C01_coal_theta_per_epoch_uniform : forall (quad : (R -> R) -> R -> R -> R) (th nuA : R) (eps : list (R * @epoch R)) (n i : nat),
+  (forall e, In e eps -> fst e = th) ->
+  coal_sfs 1 (ej_hist_th quad eps nuA th) n i = coal_sfs th (ej_hist quad (map snd eps) nuA) n i.
+Proof. exact coal_sfs_th_uniform_lemma. Qed.
+Print Assumptions C01_coal_theta_per_epoch_uniform.
+
 (** non-vacuity: a concrete grid and parameters satisfy the hypotheses; a concrete oracle value *)
 (** "left unchanged when integrated further under the same size" - neutral case, EXACT (no grid error): on every grid
     running from 0 to 1 (>= 3 points, strictly increasing), for every size nu, breeding ratio beta, theta0, every positive
